@@ -54,7 +54,7 @@ def scaling(ctx: Ctx):
         # the partition's own alias of the cube's fraction is followed, and so is any PRIVATE helper property that the
         # specification does not name (`_total_filtered_population`): the formula is compared on the named operands
         named = ("_population", "_cube", "_measures", "_dimensions", "_rows_dimension", "_transforms_dict")
-        keep = lambda m: not (m.name == "population_fraction" or (m.name.startswith("_") and not m.name.startswith("__") and m.name not in named and m.kind in ("lazyproperty", "property")))
+        keep = lambda m: not (m.name == "population_fraction" or (m.name.startswith("_") and not m.name.startswith("__") and m.name not in named and not m.name.startswith("_assemble")))
         e = expand(ctx.repo, ci, "population_counts", stop=keep)
         v, cnf, snf, _ = equal(e, "self.population_proportions * self._population * self._cube.population_fraction")
         ctx.ob("scaling", f"cubepart.py::{cname}.population_counts", cnf, snf, v, "population estimate = population proportion x population x filtered fraction")
@@ -72,8 +72,46 @@ def scaling(ctx: Ctx):
         e = expand(ctx.repo, ci, "population_fraction", stop=lambda m: True)
         ctx.check_expr("public-wiring", "cube.py::Cube.population_fraction", e, "self._measures.population_fraction")
     init = ctx.repo.lookup(ctx.repo.cls("cube.py", "Cube"), "__init__")
-    assigns = {u(t): u(n.value) for n in ast.walk(init.node) if isinstance(n, ast.Assign) for t in n.targets}
-    ctx.ob("population-default", "cube.py::Cube.__init__", assigns.get("self._population"), "0 if population is None else population", assigns.get("self._population") == "0 if population is None else population")
+    # decision table over population arguments: None -> 0, anything else kept AS IT IS (a fractional population - given in
+    # millions, or a weighted estimate - is not truncated)
+    from ..dectab import DTop, ModelInterp, Raises
+    from .common import stored_value_expr
+
+    e_pop = stored_value_expr(init, "self._population")
+    where_p = "cube.py::Cube.__init__"
+    if e_pop is None:
+        ctx.undecided("population-default", where_p, "no store of self._population found", "0 if population is None else population")
+    else:
+        bad, undec = [], None
+        for val, want_v in ((None, 0), (0, 0), (1000, 1000), (331.9, 331.9), (0.5, 0.5)):
+            def atoms_p(x, val=val):
+                if isinstance(x, ast.Name) and x.id == "population":
+                    return val
+                raise KeyError
+
+            class _I(ModelInterp):
+                def _call(self, c, it):
+                    if isinstance(c.func, ast.Name) and c.func.id in ("int", "float", "round") and len(c.args) == 1:
+                        v_ = self.ev(c.args[0])
+                        if v_ is None:
+                            raise Raises("TypeError", u(c))
+                        return {"int": int, "float": float, "round": round}[c.func.id](v_)
+                    return super()._call(c, it)
+
+            try:
+                got = _I(atoms_p).ev(e_pop)
+            except Raises as r:
+                bad.append(f"population={val!r}: raises {r.etype}")
+                continue
+            except DTop as t:
+                undec = str(t)
+                break
+            if got != want_v or type(got) is not type(want_v):
+                bad.append(f"population={val!r} -> {got!r}, specified {want_v!r}")
+        if undec:
+            ctx.undecided("population-default", where_p, "DECTAB: " + undec, "0 if population is None else population")
+        else:
+            ctx.ob("population-default", where_p, bad[:3] or u(e_pop)[:80], "None -> 0, any other value unchanged", not bad, "estimates scale linearly with ANY population value")
 
 
 def _table(e: ast.expr):
